@@ -77,6 +77,7 @@ Print Assumptions merge_only_short.
    yields its edges and the node slots handed out by the cell store are inputs ("pop script"); the decisions, the
    counter, the guard of the loop and its exception are computed, and compared pop by pop with the implementation. *)
 From SC Require Import RefineLoop RefineLoopProofs.
+From SC Require RefinerTie.
 
 (* whatever the order of the pops: the pass is a replay of the operations it lists, each of them satisfied its length
    predicate (and the link condition) when it fired, only splits and collapses occur, the counter counts them *)
@@ -132,3 +133,47 @@ Theorem silent_exit_arithmetic : forall (dynamic : bool) (lmin2 lmax2 : R) (st :
   (nb_edges st + 2 * nsplits ops < 4 * nmerges ops)%nat.
 Proof. exact leftover_arith. Qed.
 Print Assumptions silent_exit_arithmetic.
+
+(* THE TIE TO THE SOURCE (RefinerTie.v): Refiner_gen.v is regenerated from src/triangulation_modules/local_mesh_refiner.cpp on
+   every run.  The position and the momenta written by split_edge and merge_edge and the squared bounds are the model's, by
+   reflexivity; the model's split and merge are these pieces put together; the decision for a popped edge (split above l_max^2,
+   merge below l_min^2 if it can be merged, otherwise nothing; the counter moves exactly when an operation is applied) is the
+   generated if / else-if tree; and the four triangles an edge split creates, each with the label of the triangle it replaces,
+   are the model's split_tri up to the rotation in which the code lists them. *)
+Theorem refiner_arithmetic_is_what_the_source_says : RefinerTie.refiner_arith_tie.
+Proof. exact RefinerTie.refiner_arithmetic_is_what_the_source_says. Qed.
+Print Assumptions refiner_arithmetic_is_what_the_source_says.
+
+Theorem split_and_merge_use_the_generated_arithmetic :
+  forall (T : Type) (Nm : Num.Num T) (st : @MeshOps.mstate T) (a b e : N) (na nb : @MeshOps.nstate T),
+    MeshOps.nget (MeshOps.ms_nodes st) a = Some na -> MeshOps.nget (MeshOps.ms_nodes st) b = Some nb ->
+    MeshOps.edge_exists (MeshOps.ms_faces st) a b = true ->
+    MeshOps.apply_op Nm true st (MeshOps.OpSplit a b e) =
+      Some (MeshOps.mkms (MeshOps.split (MeshOps.ms_faces st) a b e)
+                 (MeshOps.nset (MeshOps.nset (MeshOps.nset (MeshOps.ms_nodes st) a (MeshOps.mkns (MeshOps.ns_pos na) (Refiner_gen.split_mom_a_gen Nm (MeshOps.ns_mom na) (MeshOps.ns_mom nb))))
+                             b (MeshOps.mkns (MeshOps.ns_pos nb) (Refiner_gen.split_mom_b_gen Nm (MeshOps.ns_mom na) (MeshOps.ns_mom nb))))
+                       e (MeshOps.mkns (Refiner_gen.split_pos_gen Nm (MeshOps.ns_pos na) (MeshOps.ns_pos nb)) (Refiner_gen.split_mom_e_gen Nm (MeshOps.ns_mom na) (MeshOps.ns_mom nb))))) /\
+    MeshOps.apply_op Nm true st (MeshOps.OpMerge a b e) =
+      Some (MeshOps.mkms (MeshOps.collapse (MeshOps.ms_faces st) a b e)
+                 (MeshOps.nset (MeshOps.ndel (MeshOps.ndel (MeshOps.ms_nodes st) a) b) e
+                    (MeshOps.mkns (Refiner_gen.merge_pos_gen Nm (MeshOps.ns_pos na) (MeshOps.ns_pos nb)) (Refiner_gen.merge_mom_gen Nm (MeshOps.ns_mom na) (MeshOps.ns_mom nb))))).
+Proof. exact RefinerTie.apply_op_uses_the_generated_arithmetic. Qed.
+Print Assumptions split_and_merge_use_the_generated_arithmetic.
+
+Theorem decision_for_a_popped_edge_is_what_the_source_says :
+  forall (T : Type) (Nm : Num.Num T) (lmin2 lmax2 : T) (st : @MeshOps.mstate T) (a b : N) (na nb : @MeshOps.nstate T),
+    MeshOps.nget (MeshOps.ms_nodes st) a = Some na -> MeshOps.nget (MeshOps.ms_nodes st) b = Some nb ->
+    MeshOps.edge_exists (MeshOps.ms_faces st) a b = true ->
+    RefineLoop.decide Nm lmin2 lmax2 st a b =
+      Refiner_gen.decision_gen Nm lmin2 lmax2 (Refiner_gen.sq_len_gen Nm (MeshOps.ns_pos na) (MeshOps.ns_pos nb)) (RefineLoop.can_merge st a b).
+Proof. exact RefinerTie.decide_is_the_generated_tree. Qed.
+Print Assumptions decision_for_a_popped_edge_is_what_the_source_says.
+
+Theorem split_creates_the_models_triangles_with_their_labels :
+  forall (a b e x y z : N) (ty : nat),
+    x <> y -> y <> z -> x <> z -> a <> b ->
+    MeshOps.has_dir (x, y, z) a b = true \/ MeshOps.has_dir (x, y, z) b a = true ->
+    RefinerTie.faces_match (MeshOps.split_tri a b e ((x, y, z), ty))
+      (Refiner_gen.split_faces_gen (Refiner_gen.same_orientation_gen (x, y, z) a b) a b (MeshOps.third (x, y, z) a b) e ty) = true.
+Proof. exact RefinerTie.split_tri_is_what_the_source_creates. Qed.
+Print Assumptions split_creates_the_models_triangles_with_their_labels.
